@@ -240,7 +240,8 @@ Print Assumptions C03_monitor_delivered.
 Theorem C03_monitor_frame :
   forall (W : world) (st : pstate) (from : addr) (wire : list N) (ob : observation),
   mon_decode W st from wire ob = true -> auth_check W st from wire = AuthNone ->
-  ob_ok ob = None /\ ob_changed ob = [] /\ ob_ident_changed ob = false /\ ob_added ob = O.
+  ob_ok ob = None /\ ob_changed ob = [] /\ ob_ident_changed ob = false /\ ob_added ob = O /\
+  ob_gstore_changed ob = false.
 Proof. exact mon_decode_frame. Qed.
 Print Assumptions C03_monitor_frame.
 
